@@ -654,12 +654,24 @@ func contradictory(c []Guard) bool {
 
 // AllDisjuncts reports whether every disjunct of the DNF contains a guard satisfying pred.
 func AllDisjuncts(dnf [][]Guard, pred func(Guard) bool) bool {
+	return allDisjuncts(dnf, pred, 2)
+}
+
+func allDisjuncts(dnf [][]Guard, pred func(Guard) bool, depth int) bool {
 	for _, conj := range dnf {
 		ok := false
 		for _, g := range conj {
 			if pred(g) {
 				ok = true
 				break
+			}
+			// a guard that is the result of an unexported boolean helper of the same package
+			// ("if p.mustWait(ctx)") implies what the helper's body implies for that result
+			if depth > 0 {
+				if exp := predicateHelperDNF(g); exp != nil && allDisjuncts(exp, pred, depth-1) {
+					ok = true
+					break
+				}
 			}
 		}
 		if !ok {
